@@ -70,3 +70,12 @@ CORPUS = [
 CORPUS += [
     M("command-serialised-twice", "msmart/device/AC/device.py", "        responses = await super()._send_command(command)\n", "        _LOGGER.debug(\"Sending %s\", command.tobytes().hex())\n        responses = await super()._send_command(command)\n"),
 ]
+# round 10: implicit serialisations (an accessor / __str__ that takes an id, used on the send chain)
+CORPUS += [
+    M("str-consumes-id-logged", "msmart/device/AC/command.py", "    def _next_message_id(self) -> int:",
+      "    def __str__(self) -> str:\n        return self.tobytes().hex()\n\n    def _next_message_id(self) -> int:",
+      also=[("msmart/device/AC/device.py", "        responses = await super()._send_command(command)\n",
+              "        _LOGGER.debug(\"Sending %s\", command)\n        responses = await super()._send_command(command)\n")]),
+    M("n-str-consumes-id-unused", "msmart/device/AC/command.py", "    def _next_message_id(self) -> int:",
+      "    def __str__(self) -> str:\n        return self.tobytes().hex()\n\n    def _next_message_id(self) -> int:", "S"),
+]
